@@ -26,6 +26,8 @@ type Req struct {
 	Fail2    bool             // a member of q4's conc block fails
 	Dirty    bool             // rule qd assigns a local and then faults
 	CallData bool             // rule qx calls the injected object Req as if it were a function (a rule error like any other)
+	KeyN     int64            // Id % 7: the key under which ITab holds Id
+	ITab     map[int32]int64  // read as Req.ITab[kn] with the int64 local kn (the key is converted to the map's key type)
 	Tab      map[string]int64 // {"k": Id}: read with a string-literal key and with a variable key
 }
 
@@ -43,6 +45,7 @@ type Resp struct {
 	Seen  int64 // must stay 0: rule ql reads a local it never assigned
 	Tw    int64 // Req.Twice(): a method of the request's own object
 	MV    int64 // Req.Tab["k"] + Req.Tab[kv]: map element reads on request data
+	MV2   int64 // Req.ITab[kn]
 }
 
 type Key struct{ Id int64 }
@@ -115,6 +118,8 @@ begin
   Resp.Tw = Req.Twice()
   kv = "k"
   Resp.MV = Req.Tab["k"] + Req.Tab[kv]
+  kn = Req.KeyN
+  Resp.MV2 = Req.ITab[kn]
   Resp.Out3 = Req.Id
   return Req.Id
 end
@@ -453,7 +458,8 @@ func (s *Storm) genCall(r *rand.Rand, gateOnly bool) trace.Call {
 // fire performs one request and checks what it got back (C06 clauses).
 func (s *Storm) fire(r *rand.Rand, c trace.Call, fail, boom bool, holdUs int64, keys []string) *done {
 	id := atomic.AddInt64(&s.nextID, 1)
-	req := &Req{Id: id, Fail: fail, Boom: boom, HoldUs: holdUs, List: []int64{id, id + 1, id + 2}, Tab: map[string]int64{"k": id}}
+	req := &Req{Id: id, Fail: fail, Boom: boom, HoldUs: holdUs, List: []int64{id, id + 1, id + 2}, Tab: map[string]int64{"k": id},
+		KeyN: id % 7, ITab: map[int32]int64{int32(id % 7): id, int32(id%7 + 1): -1}}
 	if s.faults && !fail && !boom {
 		req.Fail2 = r.Intn(7) == 0
 		req.Dirty = r.Intn(7) == 0
@@ -575,6 +581,9 @@ func (s *Storm) checkIdentity(d *done, when string) {
 		}
 		if _, ran := d.res["q3"]; ran && d.resp.Tw != 2*id {
 			s.find("iso", m+"/foreign-method-receiver", fmt.Sprintf("%s: request %d: Req.Twice() returned %d, on its own object it is %d", m, id, d.resp.Tw, 2*id), map[string]interface{}{"call": d.call})
+		}
+		if _, ran := d.res["q3"]; ran && d.resp.MV2 != id {
+			s.find("iso", m+"/foreign-map-key", fmt.Sprintf("%s: request %d: Req.ITab[kn] with its own kn=%d gave %d, its own map holds %d there", m, id, id%7, d.resp.MV2, id), map[string]interface{}{"call": d.call})
 		}
 		if _, ran := d.res["q3"]; ran && d.resp.MV != 2*id {
 			s.find("iso", m+"/foreign-map-element", fmt.Sprintf("%s: request %d: Req.Tab[\"k\"] + Req.Tab[kv] gave %d, its own map gives %d", m, id, d.resp.MV, 2*id), map[string]interface{}{"call": d.call})
